@@ -5,6 +5,12 @@ real transforms of one class with real ``event_handler`` listeners, plus two
 E3 families: every pair of listener subsets x every single assignment, and
 every combination of constructor arguments.  The ledger of callback
 invocations is filled by the listeners themselves.
+
+A fourth E3 family ("reentrant") puts a *correcting* listener on the
+transform: when it is told a value of a small to-be-corrected set it assigns
+a corrected value to the same property of the same transform from inside the
+callback (a clamp); every layout of that listener and of a passive one is
+crossed with every short sequence of assignments.
 """
 import collections
 import itertools
@@ -34,10 +40,24 @@ RULE = ('E1: breadth-first search over histories of assignments '
         'assignment, a second transform with a listener for all events '
         'standing by.  E3 "constructor": every combination of '
         '(position, rotation, scale) drawn from the same sets or omitted, '
-        'positional and keyword.  Non-trivial = the case exercised a named '
+        'positional and keyword.  E3 "reentrant": one correcting listener '
+        'registered for every non-empty subset of the three events x one '
+        'passive listener registered for every subset (empty = absent) on '
+        'the same transform x every sequence of 1..n assignments (n = 2 '
+        'quick, 3 thorough) of any property to any value of the sets above; '
+        'the correcting listener, when told a to-be-corrected value (2D '
+        'rotation > 180; 3D rotation with |x| > 180; position / scale equal '
+        'to the second or third vector of the set), assigns the corrected '
+        'value (2D: -180, stored as 180; 3D: x clamped to +-180; vectors: '
+        'second component zeroed, a fresh Vec resp. a fresh plain tuple) to '
+        'the same property of the same transform from inside the callback, '
+        'at most once per outer assignment; a second transform with its own '
+        'correcting and passive listeners for all events stands by.  '
+        'Non-trivial = the case exercised a named '
         'shortcut (rotation outside [0, 360), negative rotation, listener '
         'on the other instance / for another event standing by, no '
-        'listener for the event, several listeners, plain tuple value).')
+        'listener for the event, several listeners, plain tuple value, '
+        'assignment nested in a callback).')
 
 EVENTS = ('on_position_change', 'on_rotation_change', 'on_scale_change')
 PROPS = ('position', 'rotation', 'scale')
@@ -86,6 +106,80 @@ def _listener_class(bits):
 
 
 LISTENER = {bits: _listener_class(bits) for bits in range(1, 8)}
+
+
+# -- re-entrant (correcting) listeners ---------------------------------------
+CLAMP = 180
+
+
+def correction(dim, prop, value):
+    """The corrected value (a fresh object) if ``value`` - what a callback
+    was told - belongs to the to-be-corrected set, else None.  A corrected
+    value never belongs to the set again."""
+    try:
+        if prop == 'rotation':
+            if dim == 2:
+                if is_number(value) and value > CLAMP:
+                    return -CLAMP       # is stored (and notified) as 180.0
+                return None
+            x, y, z = value
+            if abs(x) > CLAMP:
+                return Vec3(max(-CLAMP, min(CLAMP, x)), y, z)
+            return None
+        comps = tuple(value)
+    except Exception:
+        return None
+    if comps == VECTORS[dim][1]:
+        return VEC[dim](comps[0], 0, *comps[2:])
+    if comps == VECTORS[dim][2]:
+        return tuple([comps[0], 0, *comps[2:]])      # a new plain tuple
+    return None
+
+
+class BaseCorrector(BaseListener):
+    """Logs like a passive listener, then - when told a to-be-corrected
+    value and allowed by ``budget`` (set to 1 by the harness before every
+    outer assignment: no unbounded recursion whatever the implementation
+    does) - assigns the corrected value to the same property of its own
+    transform from inside the callback."""
+
+    def __init__(self, label, log, dim, transform):
+        super().__init__(label, log)
+        self.dim = dim
+        self.transform = transform
+        self.budget = 0
+        self.nested = []        # (prop, corrected value) assignments made
+
+    def react(self, prop, args, kwargs):
+        self.log.append((self.label, EVENT_OF[prop], args, kwargs))
+        if self.budget <= 0 or len(args) != 1 or kwargs:
+            return
+        fix = correction(self.dim, prop, args[0])
+        if fix is None:
+            return
+        self.budget -= 1
+        self.nested.append((prop, fix))
+        setattr(self.transform, prop, fix)
+
+    def on_position_change(self, *args, **kwargs):
+        self.react('position', args, kwargs)
+
+    def on_rotation_change(self, *args, **kwargs):
+        self.react('rotation', args, kwargs)
+
+    def on_scale_change(self, *args, **kwargs):
+        self.react('scale', args, kwargs)
+
+
+def _corrector_class(bits):
+    events = [EVENTS[i] for i in range(3) if bits >> i & 1]
+    cls = type(f'Corrector{bits:03b}', (BaseCorrector,),
+               {'__module__': __name__, 'bits': bits,
+                'events': frozenset(events)})
+    return desper.event_handler(*events)(cls)
+
+
+CORRECTOR = {bits: _corrector_class(bits) for bits in range(1, 8)}
 
 
 def layout_listeners(layout):
@@ -422,7 +516,7 @@ def single_assignments(dim):
             yield prop, idx
 
 
-def subset_cases():
+def subset_cases(tier=None):
     cases = []
     for dim in (2, 3):
         for a in range(8):
@@ -484,8 +578,194 @@ def run_subset_case(case):
     return {'calls': 2 + len(calls), 'hits': dict(hits), 'key': repr(case)}
 
 
+# -- E3: re-entrant listeners -------------------------------------------------
+def judge_reentrant(calls, listeners, fixer, prop, read, n_assign, feat,
+                    hits):
+    """The ledger of one OUTER assignment on t0 during which ``fixer`` made
+    ``n_assign - 1`` nested assignments of the same property.
+
+    Demanded (and nothing else): every listener of the matching event on t0
+    was notified once per assignment (outer and nested); nobody was notified
+    of another event, no listener of the other transform was called; the
+    last notification carries what the property reads now.  "Last" is
+    judged on the ledger of the correcting listener: it receives the nested
+    notification while its outer callback is still running, so that one is
+    its last whatever the delivery order; a passive listener served after
+    the correcting one may legitimately be told the outer value last."""
+    event = EVENT_OF[prop]
+    vector = not is_number(read)
+    per = collections.defaultdict(list)
+    for label, ev, args, kwargs in calls:
+        per[label].append((ev, args, kwargs))
+    for label, bits, insts in listeners:
+        mine = per.pop(label, [])
+        wants = 0 in insts and event in LISTENER[bits].events
+        foreign = [c for c in mine if c[0] != event]
+        if foreign:
+            raise Violation(
+                'no_cross_talk',
+                f'{prop} assigned on t0 (and corrected from a callback): '
+                f'listener {label} got {foreign[0][0]}', kind='other_event',
+                **feat)
+        if not wants:
+            if mine:
+                kind = ('other_instance' if 0 not in insts
+                        else 'not_subscribed')
+                raise Violation(
+                    'no_cross_talk',
+                    f'{prop} assigned on t0 (and corrected from a '
+                    f'callback): listener {label} (registered on '
+                    f'{list(insts)} for {sorted(LISTENER[bits].events)}) '
+                    f'was called', kind=kind, **feat)
+            continue
+        if len(mine) != n_assign:
+            raise Violation(
+                'listener_called_once',
+                f'{prop} assigned on t0 and {n_assign - 1} time(s) from '
+                f'inside a callback: listener {label} was called '
+                f'{len(mine)} times, expected {n_assign}',
+                count=('zero' if not mine else
+                       'few' if len(mine) < n_assign else 'many'), **feat)
+        for _, args, kwargs in mine:
+            if len(args) != 1 or kwargs:
+                raise Violation(
+                    'notified_value_is_stored_value',
+                    f'{prop} assigned on t0: listener {label} got '
+                    f'args={args!r} kwargs={kwargs!r}, expected the one new '
+                    f'value', **feat)
+        if label == fixer:
+            got = mine[-1][1][0]
+            try:
+                equal = bool(got == read)
+            except Exception:
+                equal = False
+            if not equal or (vector and got is not read):
+                told = [c[1][0] for c in mine]
+                raise Violation(
+                    'last_notification_is_read_value',
+                    f'{prop} assigned on t0, listener {label} assigned a '
+                    f'corrected value from inside its callback: it was told '
+                    f'{told!r} (last: {got!r}) but t0.{prop} reads {read!r} '
+                    f'after the outermost assignment returned', **feat)
+        hits['listener_notified_reentrant'] += 1
+    if per:
+        raise Violation('no_cross_talk',
+                        f'calls on unknown listeners {sorted(per)}',
+                        kind='unknown', **feat)
+
+
+REENTRANT_MAX_LEN = {'quick': 2, 'thorough': 3}
+
+
+def reentrant_cases(tier='thorough'):
+    """(dim, correcting listener's events, passive listener's events (0 =
+    absent), sequence of (prop, value index) assignments on t0)."""
+    cases = []
+    for dim in (2, 3):
+        singles = list(single_assignments(dim))
+        seqs = [seq for n in range(1, REENTRANT_MAX_LEN[tier] + 1)
+                for seq in itertools.product(singles, repeat=n)]
+        for seq in seqs:                   # shortest sequences first
+            for cor in range(1, 8):
+                for pas in range(8):
+                    cases.append((dim, cor, pas, seq))
+    return cases
+
+
+def same_value(now, old):
+    return now is old or (is_number(old) and is_number(now) and now == old)
+
+
+def run_reentrant_case(case):
+    dim, cor, pas, seq = case
+    hits = collections.Counter()
+    log = []
+    t = TRANSFORM[dim]()
+    other = TRANSFORM[dim]()
+    fixer = CORRECTOR[cor]('Fix', log, dim, t)
+    t.add_handler(fixer)
+    listeners = [('Fix', cor, (0,))]
+    keep = [fixer]
+    if pas:
+        keep.append(LISTENER[pas]('Passive', log))
+        t.add_handler(keep[-1])
+        listeners.append(('Passive', pas, (0,)))
+    other_fixer = CORRECTOR[7]('OtherFix', log, dim, other)
+    bystander = LISTENER[7]('Other', log)
+    other.add_handler(other_fixer)
+    other.add_handler(bystander)
+    listeners += [('OtherFix', 7, (1,)), ('Other', 7, (1,))]
+    n_calls = 0
+    for prop, idx in seq:
+        feat = dict(dim=dim, prop=prop, band=rotation_band(dim, prop, idx))
+        value = make_value(dim, prop, idx)
+        before = {p: getattr(other, p) for p in PROPS}
+        untouched = {p: getattr(t, p) for p in PROPS if p != prop}
+        del log[:]
+        del fixer.nested[:]
+        fixer.budget = other_fixer.budget = 1
+        try:
+            setattr(t, prop, value)
+        except Exception as exc:
+            raise Violation('setter_raises', f't0.{prop} = {value!r} raised '
+                            f'{type(exc).__name__}: {exc}', **feat)
+        fixer.budget = other_fixer.budget = 0
+        calls = list(log)
+        read = getattr(t, prop)
+        if len(log) != len(calls):
+            raise Violation('no_cross_talk', f'reading t0.{prop} notified '
+                            f'listeners', kind='read', **feat)
+        if any(p != prop for p, _ in fixer.nested):
+            # the correcting listener only reacts to the event it is told
+            raise Violation('no_cross_talk',
+                            f'{prop} assigned on t0: the correcting '
+                            f'listener was told of '
+                            f'{[p for p, _ in fixer.nested]}',
+                            kind='other_event', **feat)
+        n_assign = 1 + len(fixer.nested)
+        if n_assign == 1:
+            # nothing happened inside the callbacks: the plain oracle
+            check_stored(dim, prop, value, read, feat,
+                         'stores_assigned_value')
+            judge_calls(calls, listeners, 0, prop, read, feat, hits)
+        else:
+            if dim == 2 and prop == 'rotation' and not (
+                    is_number(read) and 0 <= read < 360):
+                raise Violation('rotation_reduced_mod_360',
+                                f'rotation given {value!r}, corrected to '
+                                f'{fixer.nested[-1][1]!r} from a callback, '
+                                f'reads back {read!r}, not in [0, 360)',
+                                **feat)
+            judge_reentrant(calls, listeners, 'Fix', prop, read, n_assign,
+                            feat, hits)
+            hits['reentrant_assignment'] += 1
+            hits[f'reentrant_{dim}d_{prop}'] += 1
+            if pas and EVENT_OF[prop] in LISTENER[pas].events:
+                hits['reentrant_with_passive_listener'] += 1
+            if type(fixer.nested[-1][1]) is tuple:
+                hits['reentrant_plain_tuple_correction'] += 1
+            if n_calls:
+                hits['reentrant_after_earlier_assignment'] += 1
+        shortcut_hits(dim, prop, idx, listeners, 0, hits)
+        for p, old in before.items():
+            now = getattr(other, p)
+            if not same_value(now, old):
+                raise Violation('instances_independent',
+                                f'other.{p} changed from {old!r} to {now!r}',
+                                dim=dim, prop=p, untouched=True)
+        for p, old in untouched.items():
+            now = getattr(t, p)
+            if not same_value(now, old):
+                raise Violation('properties_independent',
+                                f't0.{p} changed from {old!r} to {now!r} '
+                                f'when {prop} was assigned', dim=dim,
+                                prop=prop)
+        n_calls += 2 + len(calls)
+    return {'calls': n_calls, 'hits': dict(hits), 'key': repr(case)}
+
+
 # -- E3: constructor arguments ---------------------------------------------
-def constructor_cases():
+def constructor_cases(tier=None):
     """(dim, position idx|None, rotation idx|None, scale idx|None, mode)
     mode: 'kw' keywords, 'pos' positional (only a prefix can be given)."""
     cases = []
@@ -587,6 +867,7 @@ def drivers(tier):
 E3_PARTS = {
     'listener-subsets': (run_subset_case, subset_cases),
     'constructor': (run_constructor_case, constructor_cases),
+    'reentrant': (run_reentrant_case, reentrant_cases),
 }
 
 
@@ -607,7 +888,24 @@ def run(tier, rep):
         'returns; two instances returning the same immutable object would '
         'be counted as information only',
         'dispatch_enabled = False (queued notifications) belongs to C04 and '
-        'is outside the alphabet; listeners have no side effects',
+        'is outside the alphabet; listeners have no side effects, except '
+        'the correcting listener of part "reentrant"',
+        'part "reentrant": after the OUTERMOST assignment returns the '
+        'property reads the value carried by the last notification of the '
+        'matching event, judged on the ledger of the correcting listener '
+        '(its nested notification arrives while its outer callback runs, so '
+        'it is its last one under any delivery order; with several '
+        'listeners the order of delivery is unspecified and a passive '
+        'listener served after the correcting one is told the outer value '
+        'last - accepted); every listener of the event got exactly one '
+        'notification per assignment, outer and nested (for the passive '
+        'listener only the count is judged when a nested assignment took '
+        'place); no other event, no listener of the other transform.  Not '
+        'demanded there: what a callback reads from the transform while it '
+        'runs, which values the passive listener is told, that the value '
+        'finally stored equals the corrected one (only: equals the last '
+        'notification).  One correcting listener per transform, one '
+        'correction per outer assignment.',
         'quick: histories up to depth 3; thorough: depth 4 for the two '
         'subset layouts (depth caps reported, so `exhaustive` is false) and '
         'the fixpoint of the merged state space for the dup-shared layout',
@@ -616,12 +914,27 @@ def run(tier, rep):
                      other_instance_listener=1, other_event_listener=1,
                      no_listener_for_event=1, multiple_listeners=1,
                      listener_notified=1, plain_tuple_value=1,
-                     constructor_rotation_out_of_range=1, rotation_3d=1)
+                     constructor_rotation_out_of_range=1, rotation_3d=1,
+                     reentrant_assignment=1, reentrant_with_passive_listener=1,
+                     reentrant_plain_tuple_correction=1,
+                     reentrant_after_earlier_assignment=1,
+                     **{f'reentrant_{d}d_{p}': 1 for d in (2, 3)
+                        for p in PROPS})
     for name, (driver, kw) in drivers(tier).items():
         kernel.explore(driver, rep, part=name, params=driver.params(), **kw)
     for part, (runner, cases) in E3_PARTS.items():
-        kernel.enumerate_cases(runner, cases(), rep, part,
-                               params=dict(rotations=list(ROTATIONS)))
+        params = dict(rotations=list(ROTATIONS))
+        if part == 'reentrant':
+            params.update(
+                max_sequence_length=REENTRANT_MAX_LEN[tier],
+                vectors={str(d): [list(v) for v in VECTORS[d]]
+                         for d in (2, 3)},
+                corrected={'rotation_2d': f'> {CLAMP} -> {-CLAMP}',
+                           'rotation_3d': f'|x| > {CLAMP} -> x clamped',
+                           'position_scale': 'vectors 1 and 2 -> second '
+                                             'component zeroed'})
+        kernel.enumerate_cases(runner, cases(tier), rep, part,
+                               params=params)
 
 
 def replay(rec):
